@@ -156,6 +156,21 @@ theorem pkg_contents_inside_linkfree (cfg : PkgConfig) (fs : FS) (name : List Ch
 /-- the `ext` setting is one `pathlib` accepts (`FileSystemLoader.__init__` raises `ValueError` otherwise) -/
 def ExtValid (ext : Option Name) : Prop := ∀ x, ext = some x → suffixOk x = true
 
+/-- a loader that could be constructed has a valid `ext` (both constructors run `Path("x").with_suffix(ext)`) -/
+theorem init_validates_ext (ext : Option Name) (h : loaderInit ext = .ok ()) : ExtValid ext := by
+  intro x hx
+  subst hx
+  cases x with
+  | nil => decide
+  | cons c cs =>
+    simp only [loaderInit] at h
+    split at h
+    · rename_i q hq
+      cases hok : suffixOk (c :: cs) with
+      | true => rfl
+      | false => simp [withSuffix, hok] at hq
+    · cases h
+
 /-- **FileSystemLoader.get_source fails with TemplateNotFoundError and nothing else** — for every name: too
 long for the file system (ENAMETOOLONG, as fixed), embedded NUL or unencodable code points (`ValueError`
 inside `stat`, swallowed by `exists()`), symbolic-link loops (`resolve()` would raise `RuntimeError`, but it is
@@ -339,11 +354,22 @@ theorem fsl_old_long_name_counterexample :
   have := h .osError (by decide +kernel)
   cases this
 
-/-- the full statements in the same vocabulary, for the code as it is now -/
-theorem fsl_raises_only_not_found (cfg : FSLConfig) (fs : FS) (name : List Ch) (hext : ExtValid cfg.ext) :
-    OnlyNotFound (fslGetSource cfg fs name) := fun e h => fsl_only_not_found cfg fs name e hext h
+/-- the full statements in the same vocabulary, for the code as it is now: **any loader that could be
+constructed raises nothing but TemplateNotFoundError, for every name and every file system** -/
+theorem fsl_raises_only_not_found (cfg : FSLConfig) (fs : FS) (name : List Ch) (hinit : loaderInit cfg.ext = .ok ()) :
+    OnlyNotFound (fslGetSource cfg fs name) :=
+  fun e h => fsl_only_not_found cfg fs name e (init_validates_ext _ hinit) h
 
-theorem pkg_raises_only_not_found (cfg : PkgConfig) (fs : FS) (name : List Ch) (hext : suffixOk cfg.ext = true) :
-    OnlyNotFound (pkgGetSource cfg fs name) := fun e h => pkg_only_not_found cfg fs name e hext h
+theorem pkg_raises_only_not_found (cfg : PkgConfig) (fs : FS) (name : List Ch)
+    (hinit : loaderInit (some cfg.ext) = .ok ()) : OnlyNotFound (pkgGetSource cfg fs name) :=
+  fun e h => pkg_only_not_found cfg fs name e (init_validates_ext _ hinit _ rfl) h
+
+/-- **Before `fix: PackageLoader validates ext when it is constructed`:** `PackageLoader(pkg, ext="liquid")` was
+accepted and then raised `ValueError` for every name without a suffix. -/
+theorem pkg_old_invalid_ext_counterexample :
+    ¬ OnlyNotFound (pkgGetSource { demoPkg with ext := str "liquid" } demoFS (str "t")) := by
+  intro h
+  have := h .valueError (by decide)
+  cases this
 
 end LiquidVerif.C22
